@@ -207,6 +207,19 @@ def gen_case(ctx, g, focus=None):
         cx2 = dict(cx, update=True)
         asg = [(r.randint(0, na - 1 + (1 if r.random() < 0.08 else 0)), g.str_expr(cx2, 1) if r.random() < 0.7 else ('fld', 'a', r.randint(0, na - 1))) for _ in range(r.randint(1, 3))]
         qa['kind'] = ('update', asg)
+        if join is None and r.random() < 0.15:
+            # a wide table, targets with two-digit column numbers next to small ones, and records too short for the higher target:
+            # the bad-field error names that record whatever else is assigned (11 sorts before 3 as TEXT; seeded change C05-12)
+            A = [row + [r.choice(CELLS[:5]) for _ in range(12 - len(row))] for row in A]
+            A = [row[:r.choice([3, 5, 10, 11])] if r.random() < 0.35 else row for row in A]
+            hi, lo = r.choice([10, 11]), r.randint(1, 9)
+            asg = [(lo, ('fld', 'a', 0)), (hi, ('lit', 'w'))]
+            if r.random() < 0.5:
+                asg.reverse()
+            if r.random() < 0.3:
+                asg.append((r.randint(0, 11), ('fld', 'a', 1)))
+            qa['kind'] = ('update', asg)
+            qa['where'] = None
     rend = qmodel.Renderer('js', r)
     c = {'qa': qa, 'A': A, 'B': B, 'tags': tags}
     c['qjs'] = rend.query(qa)
